@@ -249,8 +249,12 @@ Section Gram.
   Proof.
     unfold parse_annotations.
     eapply RK_bind; [apply RK_exp_token|]. intros t lo mid H1 H2 Ht.
-    eapply RK_bind_shift; [apply RK_take_until|]. intros x lo' mid' H3 H4 Hx.
-    apply RK_ret_shift. intros hi H5 H6. apply empty_default_ok.
+    eapply RK_bind_shift.
+    - apply RK_opt. unfold annotation_body.
+      eapply RK_bind with (Q2 := @TrueQ unit); [apply RK_take_until|]. intros x lo' mid' H3 H4 Hx.
+      destruct (snd x); [apply RK_ret_shift; intros; exact I | apply RK_fail].
+    - intros r lo' mid' H3 H4 Hr.
+      destruct r; [apply RK_ret_shift; intros hi H5 H6; apply empty_default_ok | apply RK_fail].
   Qed.
   Hint Resolve R_parse_annotations : rdb.
 
